@@ -8,6 +8,7 @@ R07c  the ignore pattern is consulted only while building listings, never when
       deciding whether a selector can be served
 R07d  dot-files never enter the listing (UMN), whatever the ignore pattern says
 R07e  the final comparison is effect-free and looks only at name and number
+R07g  entries hidden by metadata (Type=X blocks) stay hidden (shared with C08's merge rule)
 R07f  every name that passes the filter is appended once; nothing else is
 Set equality between listing and directory contents is not decided.
 """
@@ -35,6 +36,7 @@ def check(ctx, rep):
     rep.rule("R07c", "ignorepatt is read only in listing construction", floor=1)
     rep.rule("R07d", "dot-files are never added to the listing by the UMN handler", floor=1)
     rep.rule("R07e", "entrycmp has no effects and reads only name/num", floor=1)
+    rep.rule("R07g", "entries hidden by metadata stay hidden: MergeLinkFiles removes the walked entry for Type=X, never re-adds a block for a walked file, keeps its selector index intact", floor=1)
     rep.rule("R07f", "a name is appended to the file list exactly when the filter accepts it, once", floor=1)
     dirbase = ctx.cls("handlers.dir.DirHandler")
     if dirbase is None:
@@ -169,6 +171,12 @@ def check(ctx, rep):
             rep.add("R07d", f"{m.qualname}: dot-files never listed", not bad, ctx.where(m),
                     "a name starting with '.' can be added to the listing" if bad else "", key="R07d|dotfiles")
 
+    # ------------------------------------------------------------------ R07g
+    if umn is not None:
+        from .c08 import merge_obligations
+
+        merge_obligations(ctx, rep, umn, rule_c="R07g", only_merge=True)
+
     # ------------------------------------------------------------------ R07e
     if umn is not None:
         ec = prog.resolve_method(umn, "entrycmp")
@@ -213,7 +221,7 @@ def check(ctx, rep):
             tests = [t for t in g.ifs]
             okf = len(tests) == 1 and isinstance(tests[0], ast.Call) and isinstance(tests[0].func, ast.Attribute) \
                 and tests[0].func.attr == "prep_initfiles_canaddfile" and len(tests[0].args) >= 3 and norm(tests[0].args[2]) == var \
-                and concat_pieces(expand_ast(tests[0].args[1], pi)) == [("expr", "self.selectorbase"), ("lit", "/"), ("expr", var)]
+                and concat_pieces(__import__("pgv.structure", fromlist=["resolve_value"]).resolve_value(tests[0].args[1], pi, dirbase, None, prog, ctx.resolver)) == [("expr", "self.selectorbase"), ("lit", "/"), ("expr", var)]
             if not okf:
                 problems.append("names are not filtered by prep_initfiles_canaddfile(ignorepatt, selectorbase/name, name)")
         if len(loops) + len(comps) != 1:
@@ -251,7 +259,9 @@ def check(ctx, rep):
 
                     args = list(_filter_call(d).args)
                     if len(args) >= 3:
-                        pcs = concat_pieces(expand_ast(args[1], pi, d.defs or {}))
+                        from ..structure import resolve_value
+
+                        pcs = concat_pieces(resolve_value(args[1], pi, dirbase, d.defs or {}, prog, ctx.resolver))
                         if norm(args[2]) != var or pcs != [("expr", "self.selectorbase"), ("lit", "/"), ("expr", var)]:
                             problems.append("the filter is not applied to selectorbase/name")
         rep.add("R07f", f"{pi.qualname}: append iff accepted, once", not problems, ctx.where(pi), "; ".join(sorted(set(problems))), key="R07f|prep_initfiles")
